@@ -1,4 +1,817 @@
-From FA.Base Require Import PyAst Value Induct.
+(* C10: on a stream without type information the follower returns the expression it was given, or
+   refuses for a designed reason; it never fails with an internal error.
+
+   The statement is for EVERY class table and callback table (no class is ever consulted when the
+   lambda parameter is typed Any), every table of registered functions that have neither defaults nor a
+   processor and return a plain type (the library's own [abs]/[len]: Example [ft_default_plain]). *)
+From FA.Base Require Import PyAst Value Induct Traverse.
 From FA.Gen Require Import TablesUtil TablesTypes.
 From FA.Model Require Import TypeDefs TypeFollow.
 From FA.Proofs Require Import TypeFollowFacts.
+From Coq Require Import Lia.
+
+(* ---------- types that can arise: no class, no Iterable, no type variable ---------- *)
+
+Fixpoint simple_ty (t : ty) : bool :=
+  let all := fix all (l : list ty) : bool := match l with [] => true | x :: xs => simple_ty x && all xs end in
+  match t with
+  | TCls _ _ | TIter _ | TVar _ => false
+  | TRecord _ ts => all ts
+  | _ => true
+  end.
+Definition simple (t : ty) : Prop := simple_ty t = true.
+
+Lemma simple_record ns ts : simple (TRecord ns ts) <-> Forall simple ts.
+Proof.
+  unfold simple; cbn. induction ts as [|x xs IH]; cbn.
+  - split; auto.
+  - rewrite andb_true_iff. split.
+    + intros [H1 H2]. constructor; [exact H1 | apply IH; exact H2].
+    + intros H. inversion H; subst. split; [assumption | apply IH; assumption].
+Qed.
+
+Lemma simple_nth ts i : Forall simple ts -> simple (nth i ts TAny).
+Proof.
+  intros H. revert i. induction H as [|x xs Hx _ IH]; intros [|i]; cbn; try reflexivity; auto.
+Qed.
+
+Lemma simple_not_cls t : simple t -> match t with TCls _ _ | TIter _ | TVar _ => False | _ => True end.
+Proof. destruct t; cbn; intros H; try exact I; discriminate. Qed.
+
+Section UtilSimple.
+  Variable ct : classtab.
+
+  Lemma get_inherited_simple t : simple t -> get_inherited ct t = TAny.
+  Proof. destruct t; cbn; intros H; try reflexivity; discriminate. Qed.
+
+  Lemma find_iterable_any n : find_iterable ct n TAny = TAny.
+  Proof. destruct n; reflexivity. Qed.
+
+  Lemma find_iterable_simple n t : simple t -> find_iterable ct n t = TAny.
+  Proof.
+    intros H. destruct n as [|n]; [reflexivity|]. cbn [find_iterable].
+    destruct (is_any t); [reflexivity|].
+    destruct t; cbn in *; try discriminate; try apply find_iterable_any.
+  Qed.
+
+  Lemma is_iterable_simple t : simple t -> is_iterable ct t = false.
+  Proof. intros H. unfold is_iterable. rewrite find_iterable_simple by exact H. reflexivity. Qed.
+
+  Lemma unwrap_iterable_simple t : simple t -> unwrap_iterable ct t = TAny.
+  Proof. intros H. unfold unwrap_iterable. rewrite find_iterable_simple by exact H. reflexivity. Qed.
+
+  Lemma get_method_simple t a : simple t -> get_method_and_class ct t a = None.
+  Proof. destruct t; cbn; intros H; try reflexivity; discriminate. Qed.
+
+  Lemma record_fields_simple t ns ts : simple t -> record_fields ct t = Some (ns, ts) -> Forall simple ts.
+  Proof.
+    destruct t; cbn; intros H E; try discriminate.
+    inversion E; subst. apply simple_record in H. exact H.
+  Qed.
+End UtilSimple.
+
+(* ---------- designed refusals ---------- *)
+
+(* [e] itself is a place where the refusal [r] is designed to happen *)
+Definition site (ft : functab) (r : refusal) (e : expr) : Prop :=
+  match r, e with
+  | RIfExp, IfExp _ _ _ => True                                  (* conditional with incompatible branch types *)
+  | RTupleIndex, Subscript (Tuple _) s =>                        (* non-constant / non-integer index into a tuple literal *)
+      match s with Const (CInt _) | Const (CBool _) => False | _ => True end
+  | RTupleRange, Subscript (Tuple es) (Const c) =>               (* constant index outside the tuple literal *)
+      match c with
+      | CInt z => ~ (- Z.of_nat (length es) <= z < Z.of_nat (length es))%Z
+      | CBool b => ~ ((if b then 1 else 0) < Z.of_nat (length es))%Z
+      | _ => False
+      end
+  | RDictKey, Attr (Dict ks _) a => ~ In (Const (CStr a)) ks     (* key the dictionary literal does not define *)
+  | RRecordKey, Attr v _ => match v with Dict _ _ => False | _ => True end    (* field of a dictionary-typed value *)
+  | RRecordKey, Subscript _ _ => True
+  | RNotLiteral, Subscript _ s => literal_eval s = None          (* non-constant key into a dictionary-typed value *)
+  | RMissingArg _, Call (Name x) _ _ _ => find_func ft x <> None (* registered function without its required argument *)
+  | _, _ => False
+  end.
+
+Inductive within (P : expr -> Prop) : expr -> Prop :=
+ | within_here e : P e -> within P e
+ | within_child e c : In c (children e) -> within P c -> within P e.
+
+Definition designed (ft : functab) (r : refusal) (e : expr) : Prop := within (site ft r) e.
+
+(* ---------- the grammar of the statement ---------- *)
+
+Definition is_str_const (e : expr) : bool := match e with Const (CStr _) => true | _ => false end.
+
+Definition kw_names_param (ps : list param) (kwn : list (option string)) : bool :=
+  existsb (fun k => existsb (fun p => ostr_eqb k (Some (p_name p))) ps) kwn.
+
+Section Grammar.
+  Variable W : world.
+  Variable G : tenv.
+
+  (* receivers whose type is certainly unknown *)
+  Fixpoint untyped_shape (e : expr) : bool :=
+    match e with
+    | Name x => is_any (name_type W G x)
+    | Attr u _ => untyped_shape u
+    | Subscript u _ => untyped_shape u
+    | _ => false
+    end.
+
+  (* a call of a registered function either has all its parameters positionally or names none of them
+     by keyword (abs(x=...) is not valid Python for the builtins either) *)
+  Definition fn_call_ok (x : string) (args : list expr) (kwn : list (option string)) : bool :=
+    match find_func (w_ft W) x with
+    | None => true
+    | Some fn => Nat.leb (length (f_params fn)) (length args) || negb (kw_names_param (f_params fn) kwn)
+    end.
+
+  Fixpoint expr_grammar (e : expr) : bool :=
+    let all := fix all (l : list expr) : bool := match l with [] => true | x :: xs => expr_grammar x && all xs end in
+    match e with
+    | Name _ | Const _ | Raw _ => true
+    | Lambda _ _ => true                        (* nested lambdas are not entered on an untyped object *)
+    | Attr v _ => expr_grammar v
+    | Call f args kwn kwv =>
+        expr_grammar f && all args && all kwv && Nat.eqb (length kwn) (length kwv) &&
+        match f with
+        | Subscript (Attr v _) _ => untyped_shape v          (* residual of F21, see Properties/C10.v *)
+        | Name x => fn_call_ok x args kwn
+        | _ => true
+        end
+    | UnaryOp _ x => expr_grammar x
+    | BinOp _ x y => expr_grammar x && expr_grammar y
+    | BoolOp _ xs => all xs
+    | Compare x _ xs => expr_grammar x && all xs
+    | IfExp c t f => expr_grammar c && expr_grammar t && expr_grammar f
+    | Tuple xs | List xs => all xs
+    | Dict ks vs => forallb is_str_const ks && all vs && Nat.eqb (length ks) (length vs)   (* arbitrary string keys *)
+    | Subscript v s => expr_grammar v && expr_grammar s
+    | ListComp x gs | GenExp x gs => expr_grammar x && all gs
+    | CompFor t i fs _ => expr_grammar t && expr_grammar i && all fs
+    | Other _ _ cs => all cs
+    end.
+End Grammar.
+
+Lemma grammar_all W G (l : list expr) :
+  (fix all (l : list expr) : bool := match l with [] => true | x :: xs => expr_grammar W G x && all xs end) l = true ->
+  Forall (fun x => expr_grammar W G x = true) l.
+Proof.
+  induction l as [|x xs IH]; intros H; constructor.
+  - apply andb_true_iff in H. tauto.
+  - apply IH. apply andb_true_iff in H. tauto.
+Qed.
+
+(* ---------- registered functions of the untyped setting ---------- *)
+
+Definition fn_plain (fn : func) : Prop :=
+  f_proc fn = None /\ Forall (fun p => p_default p = None) (f_params fn) /\
+  simple (match f_ret fn with Some t => t | None => TAny end).
+Definition ft_plain (ft : functab) : Prop := Forall fn_plain ft.
+
+Lemma find_keyword_none {A} (kws : list (option string * A)) name :
+  existsb (fun k => ostr_eqb k (Some name)) (map fst kws) = false -> find_keyword kws name = None.
+Proof.
+  induction kws as [|[k v] r IH]; cbn; intros H; [reflexivity|].
+  apply orb_false_iff in H. destruct H as [H1 H2]. rewrite H1. rewrite IH by exact H2. reflexivity.
+Qed.
+
+Lemma kw_names_param_false ps kwn p :
+  kw_names_param ps kwn = false -> In p ps -> existsb (fun k => ostr_eqb k (Some (p_name p))) kwn = false.
+Proof.
+  unfold kw_names_param. induction kwn as [|k r IH]; cbn; intros H Hin; [reflexivity|].
+  apply orb_false_iff in H. destruct H as [H1 H2].
+  rewrite IH by assumption. rewrite orb_false_r.
+  destruct (ostr_eqb k (Some (p_name p))) eqn:E; [|reflexivity].
+  exfalso. assert (X : existsb (fun p0 => ostr_eqb k (Some (p_name p0))) ps = true).
+  { apply existsb_exists. exists p. split; assumption. }
+  congruence.
+Qed.
+
+(* no default and no matching keyword: the walk either leaves the call as it is or refuses *)
+Lemma fill_go_plain {A} (mk : const -> A) ps :
+  forall i args (kws : list (option string * A)),
+    Forall (fun p => p_default p = None) ps ->
+    (forall p, In p ps -> existsb (fun k => ostr_eqb k (Some (p_name p))) (map fst kws) = false) ->
+    match fill_go mk ps i args kws with
+    | inl (a2, k2) => a2 = args /\ k2 = kws
+    | inr _ => True
+    end.
+Proof.
+  induction ps as [|p r IH]; intros i args kws Hd Hk; cbn [fill_go].
+  - split; reflexivity.
+  - inversion Hd as [|? ? Hp Hr]; subst.
+    destruct (skipped (p_name p)).
+    + apply IH; [assumption | intros q Hq; apply Hk; right; assumption].
+    + destruct (Nat.leb (length args) i).
+      * rewrite find_keyword_none by (apply Hk; left; reflexivity). rewrite Hp. exact I.
+      * apply IH; [assumption | intros q Hq; apply Hk; right; assumption].
+Qed.
+
+(* enough positional arguments: nothing to fill *)
+Lemma fill_go_enough {A} (mk : const -> A) ps :
+  forall i args (kws : list (option string * A)),
+    i + length ps <= length args -> fill_go mk ps i args kws = inl (args, kws).
+Proof.
+  induction ps as [|p r IH]; intros i args kws H; cbn [fill_go]; [reflexivity|].
+  cbn [length] in H.
+  destruct (skipped (p_name p)).
+  - apply IH. lia.
+  - destruct (Nat.leb (length args) i) eqn:E.
+    + apply Nat.leb_le in E. lia.
+    + unfold next_arg. rewrite fill_increments_on. apply IH. lia.
+Qed.
+
+Lemma zip_unzip (kwn : list (option string)) (kwv : list expr) :
+  length kwn = length kwv ->
+  let kws := (fix z (ks : list (option string)) (vs : list expr) :=
+                match ks, vs with k :: ks', v :: vs' => (k, v) :: z ks' vs' | _, _ => [] end) kwn kwv in
+  map fst kws = kwn /\ map snd kws = kwv.
+Proof.
+  revert kwv. induction kwn as [|k ks IH]; intros [|v vs] H; cbn in *; try discriminate; [split; reflexivity|].
+  destruct (IH vs) as [H1 H2]; [congruence|]. cbn in H1, H2. rewrite H1, H2. split; reflexivity.
+Qed.
+
+Section Untyped.
+  Variable W : world.
+  Variable G : tenv.
+  Hypothesis Hft : ft_plain (w_ft W).
+  Hypothesis HG : Forall (fun xt => simple (snd xt)) G.
+  Let ft := w_ft W.
+  Notation fx := (follow_x W G).
+  Notation fl := (follow_list_with (follow_x W G)).
+
+  Definition aux_len (e : expr) (aux : list ty) : Prop :=
+    match e with Tuple es => length aux = length es | _ => True end.
+
+  Definition good (e : expr) (r : tres fres) : Prop :=
+    match r with
+    | Ok (e', t, aux, ev) => e' = e /\ ev = [] /\ simple t /\ Forall simple aux /\ aux_len e aux
+    | Refuse r => designed ft r e
+    | Crash _ => False
+    end.
+
+  Definition good_list (es : list expr) (r : tres (list expr * list ty * list event)) : Prop :=
+    match r with
+    | Ok (es', ts, ev) => es' = es /\ ev = [] /\ Forall simple ts /\ length ts = length es
+    | Refuse r => exists x, In x es /\ designed ft r x
+    | Crash _ => False
+    end.
+
+  Lemma good_list_intro es : Forall (fun x => good x (fx x)) es -> good_list es (fl es).
+  Proof.
+    induction 1 as [|x xs Hx _ IH]; [cbn; auto|].
+    rewrite fl_cons. unfold good in Hx.
+    destruct (fx x) as [[[[x' t] aux] ev]|r|k]; cbn [bind]; try contradiction.
+    - destruct Hx as (-> & -> & Ht & _ & _).
+      unfold good_list in IH. destruct (fl xs) as [[[xs' ts] evs]|r|k]; cbn [bind]; try contradiction.
+      + destruct IH as (-> & -> & Hts & Hl). cbn. repeat split; auto.
+      + destruct IH as (y & Hy & Hd). exists y. split; [right; assumption | assumption].
+    - exists x. split; [left; reflexivity | assumption].
+  Qed.
+
+  Lemma designed_child r e c : In c (children e) -> designed ft r c -> designed ft r e.
+  Proof. intros H1 H2. eapply within_child; eauto. Qed.
+
+  Lemma name_type_simple x : simple (name_type W G x).
+  Proof.
+    unfold name_type. destruct (assoc x G) eqn:E.
+    - clear -E HG. induction G as [|[k v] r IH]; cbn in E; [discriminate|].
+      inversion HG; subst. destruct (String.eqb k x); [inversion E; subst; assumption | auto].
+    - destruct (find_func (w_ft W) x); reflexivity.
+  Qed.
+
+  Lemma const_type_simple c : simple (const_type c).
+  Proof. destruct c; reflexivity. Qed.
+
+  (* step lemmas: one bind on a child *)
+  Lemma step_child {B} (e c : expr) (k : fres -> tres B) (Q : tres B -> Prop) :
+    In c (children e) ->
+    good c (fx c) ->
+    (forall r, designed ft r e -> Q (Refuse r)) ->
+    (forall t aux, simple t -> Forall simple aux -> aux_len c aux -> fx c = Ok (c, t, aux, []) -> Q (k (c, t, aux, []))) ->
+    Q (bind (fx c) k).
+  Proof.
+    intros Hin Hg Hr Hk. unfold good in Hg.
+    destruct (fx c) as [[[[c' t] aux] ev]|r|kk] eqn:E; cbn [bind]; try contradiction.
+    - destruct Hg as (-> & -> & Ht & Ha & Hl). apply Hk; auto.
+    - apply Hr. eapply designed_child; eauto.
+  Qed.
+
+  Lemma step_list {B} (e : expr) (cs : list expr) (k : list expr * list ty * list event -> tres B) (Q : tres B -> Prop) :
+    incl cs (children e) ->
+    Forall (fun x => good x (fx x)) cs ->
+    (forall r, designed ft r e -> Q (Refuse r)) ->
+    (forall ts, Forall simple ts -> length ts = length cs -> Q (k (cs, ts, []))) ->
+    Q (bind (fl cs) k).
+  Proof.
+    intros Hin Hg Hr Hk. pose proof (good_list_intro cs Hg) as H. unfold good_list in H.
+    destruct (fl cs) as [[[cs' ts] ev]|r|kk]; cbn [bind]; try contradiction.
+    - destruct H as (-> & -> & Hts & Hl). apply Hk; auto.
+    - destruct H as (x & Hx & Hd). apply Hr. eapply designed_child; eauto.
+  Qed.
+
+  (* visit_Attribute on a simple-typed value *)
+  Lemma attr_type_good v a tv aux :
+    expr_grammar W G (Attr v a) = true -> simple tv -> Forall simple aux ->
+    match attr_type W a v tv aux with
+    | Ok t => simple t
+    | Refuse r => site ft r (Attr v a)
+    | Crash _ => False
+    end.
+  Proof.
+    intros Hg Ht Ha. unfold attr_type.
+    assert (Hrec : match record_fields (w_ct W) tv with
+                   | Some (ns, ts) => match assoc2 a ns ts with Some t => Ok t | None => Refuse RRecordKey end
+                   | None => Ok TAny
+                   end = attr_type W a (Name "") tv aux) by reflexivity.
+    destruct v; try (
+      destruct (record_fields (w_ct W) tv) as [[ns ts]|] eqn:E; [|reflexivity];
+      destruct (assoc2 a ns ts) eqn:E2; [|exact I];
+      eapply Forall_forall; [eapply record_fields_simple; eauto | eapply assoc2_In; eauto]).
+    (* dict literal *)
+    cbn [expr_grammar] in Hg. repeat (apply andb_true_iff in Hg; destruct Hg as [Hg ?]).
+    assert (Hk : forall i, exists l, key_index ks a i = Some l /\
+                                     (l = [] -> ~ In (Const (CStr a)) ks)).
+    { clear -Hg. induction ks as [|k r IH]; intros i; cbn.
+      - exists []. split; auto.
+      - cbn in Hg. apply andb_true_iff in Hg. destruct Hg as [Hk Hr].
+        destruct k; try discriminate. destruct c; try discriminate.
+        destruct (IH Hr (S i)) as (l & -> & Hl). cbn.
+        destruct (String.eqb s a) eqn:E.
+        + eexists; split; [reflexivity|]. discriminate.
+        + eexists; split; [reflexivity|]. intros -> [X|X].
+          * inversion X; subst. rewrite String.eqb_refl in E. discriminate.
+          * exact (Hl eq_refl X). }
+    destruct (Hk 0) as (l & -> & Hl). destruct l as [|i l'].
+    - destruct (is_zip a); [reflexivity|]. cbn. apply Hl. reflexivity.
+    - apply simple_nth. exact Ha.
+  Qed.
+
+  (* visit_Subscript on a simple-typed value *)
+  Lemma subscript_type_good v tv aux s :
+    simple tv -> Forall simple aux -> (match v with Tuple es => length aux = length es | _ => True end) ->
+    match subscript_type W v tv aux s with
+    | Ok t => simple t
+    | Refuse r => site ft r (Subscript v s)
+    | Crash _ => False
+    end.
+  Proof.
+    intros Ht Ha Hl. unfold subscript_type.
+    destruct v; try (
+      destruct (record_fields (w_ct W) tv) as [[ns ts]|] eqn:E;
+      [ destruct (literal_eval s) as [[k| |]|] eqn:El;
+        [ destruct (assoc2 k ns ts) eqn:E2; [|exact I];
+          eapply Forall_forall; [eapply record_fields_simple; eauto | eapply assoc2_In; eauto]
+        | exact I | exact I | exact El ]
+      | rewrite unwrap_iterable_simple by exact Ht; reflexivity ]).
+    (* tuple literal *)
+    destruct s; try exact I. destruct c; try exact I.
+    - destruct ((- Z.of_nat (length es) <=? z)%Z && (z <? Z.of_nat (length es))%Z) eqn:E.
+      + apply simple_nth. exact Ha.
+      + cbn. intros [H1 H2]. apply andb_false_iff in E. destruct E as [E|E].
+        * apply Z.leb_gt in E. lia.
+        * apply Z.ltb_ge in E. lia.
+    - destruct ((- Z.of_nat (length es) <=? (if b then 1 else 0))%Z && ((if b then 1 else 0) <? Z.of_nat (length es))%Z) eqn:E.
+      + apply simple_nth. exact Ha.
+      + cbn. intros H1. apply andb_false_iff in E. destruct E as [E|E].
+        * apply Z.leb_gt in E. destruct b; lia.
+        * apply Z.ltb_ge in E. lia.
+  Qed.
+
+  (* a method call on a simple-typed receiver is left alone *)
+  Lemma process_method_call_simple v tv a args kwn kwv :
+    simple tv ->
+    process_method_call W v tv a args kwn kwv = Ok (Call (Attr v a) (map aexpr args) kwn (map aexpr kwv), TAny, []).
+  Proof.
+    intros Ht. unfold process_method_call, candidates.
+    rewrite is_iterable_simple by exact Ht. cbn [method_loop].
+    rewrite get_method_simple by exact Ht. reflexivity.
+  Qed.
+
+  Lemma untyped_visited_shape v :
+    untyped_shape W G v = true -> forall v' t aux ev, fx v = Ok (v', t, aux, ev) ->
+    match v' with Dict _ _ | Tuple _ => False | _ => True end.
+  Proof.
+    destruct v; cbn [untyped_shape]; intros Hu v' t aux ev E; try discriminate.
+    - rewrite fx_Name in E. inversion E; subst. exact I.
+    - rewrite fx_Attr in E. apply bind_ok in E. destruct E as ([[[v1 t1] aux1] ev1] & _ & E).
+      apply bind_ok in E. destruct E as (t2 & _ & E). inversion E; subst. exact I.
+    - rewrite fx_Subscript in E. apply bind_ok in E. destruct E as ([[[v1' t1] aux1] ev1] & _ & E).
+      apply bind_ok in E. destruct E as ([[[s' ts] auxs] evs] & _ & E).
+      apply bind_ok in E. destruct E as (t2 & _ & E). inversion E; subst. exact I.
+  Qed.
+
+  Lemma untyped_is_any v :
+    untyped_shape W G v = true -> forall v' t aux ev, fx v = Ok (v', t, aux, ev) -> t = TAny /\ aux = [].
+  Proof.
+    induction v; cbn [untyped_shape]; intros Hu v' t aux ev E; try discriminate.
+    - rewrite fx_Name in E. inversion E; subst. destruct (name_type W G id); try discriminate. auto.
+    - rewrite fx_Attr in E. apply bind_ok in E. destruct E as ([[[v1 t1] aux1] ev1] & E1 & E2).
+      destruct (IHv Hu _ _ _ _ E1) as [-> ->].
+      pose proof (untyped_visited_shape v Hu _ _ _ _ E1) as Hs.
+      apply bind_ok in E2. destruct E2 as (t2 & E2 & E3). inversion E3; subst.
+      unfold attr_type in E2.
+      destruct v1; try contradiction; cbn in E2; inversion E2; auto.
+    - rewrite fx_Subscript in E. apply bind_ok in E. destruct E as ([[[v1' t1] aux1] ev1] & E1 & E2).
+      destruct (IHv1 Hu _ _ _ _ E1) as [-> ->].
+      pose proof (untyped_visited_shape v1 Hu _ _ _ _ E1) as Hs.
+      apply bind_ok in E2. destruct E2 as ([[[s' ts] auxs] evs] & _ & E2).
+      apply bind_ok in E2. destruct E2 as (t2 & E2 & E3). inversion E3; subst.
+      unfold subscript_type in E2.
+      destruct v1'; try contradiction; cbn in E2; rewrite ?find_iterable_any in E2; inversion E2; auto.
+  Qed.
+
+  Definition subgood (e : expr) : Prop :=
+    match e with
+    | Attr v _ => good v (fx v)
+    | Subscript (Attr v _) s => good v (fx v) /\ good s (fx s)
+    | Subscript _ s => good s (fx s)
+    | _ => True
+    end.
+
+  Definition P (e : expr) : Prop := expr_grammar W G e = true -> good e (fx e) /\ subgood e.
+
+  Lemma P_list es :
+    Forall P es -> Forall (fun x => expr_grammar W G x = true) es -> Forall (fun x => good x (fx x)) es.
+  Proof.
+    induction 1 as [|x xs Hx _ IH]; intros Hg; constructor; inversion Hg; subst.
+    - apply Hx; assumption.
+    - apply IH; assumption.
+  Qed.
+
+  Ltac split_gram H :=
+    repeat match type of H with
+           | _ && _ = true => let H' := fresh H in apply andb_true_iff in H; destruct H as [H H']
+           end.
+
+  Ltac fin := cbn; repeat split; auto using const_type_simple, name_type_simple.
+
+  Lemma good_refuse_here e r : site ft r e -> good e (Refuse r).
+  Proof. intros H. cbn. apply within_here. exact H. Qed.
+
+  Lemma incl_app_l {A} (a : A) (l1 l2 : list A) : incl l1 (a :: l1 ++ l2).
+  Proof. intros x Hx. right. apply in_or_app. left; exact Hx. Qed.
+  Lemma incl_app_r {A} (a : A) (l1 l2 : list A) : incl l2 (a :: l1 ++ l2).
+  Proof. intros x Hx. right. apply in_or_app. right; exact Hx. Qed.
+
+  Lemma process_function_call_plain fn args kwn kwv x :
+    find_func (w_ft W) x = Some fn -> fn_call_ok W x args kwn = true -> length kwn = length kwv ->
+    match process_function_call W fn args kwn kwv with
+    | Ok (node, t, ev) => node = Call (Name x) args kwn kwv /\ ev = [] /\ simple t
+    | Refuse r => site ft r (Call (Name x) args kwn kwv)
+    | Crash _ => False
+    end.
+  Proof.
+    intros Hf Hok Hlen. unfold process_function_call.
+    pose proof (find_func_name _ _ _ Hf) as Hn.
+    pose proof (find_func_In _ _ _ Hf) as Hin.
+    assert (Hp : fn_plain fn) by (eapply Forall_forall; [exact Hft | exact Hin]).
+    destruct Hp as (Hproc & Hdef & Hret).
+    destruct (zip_unzip kwn kwv Hlen) as [Hz1 Hz2].
+    set (kws := (fix z (ks : list (option string)) (vs : list expr) :=
+                   match ks, vs with k :: ks', v :: vs' => (k, v) :: z ks' vs' | _, _ => [] end) kwn kwv) in *.
+    unfold fn_call_ok in Hok. rewrite Hf in Hok. apply orb_true_iff in Hok.
+    assert (Hfill : match fill Const (f_params fn) args kws with
+                    | inl (a2, k2) => a2 = args /\ k2 = kws
+                    | inr _ => True end).
+    { unfold fill. destruct Hok as [Hok|Hok].
+      - apply Nat.leb_le in Hok. rewrite fill_go_enough by (cbn; lia). split; reflexivity.
+      - apply negb_true_iff in Hok. apply fill_go_plain; [exact Hdef|].
+        intros p Hp. rewrite Hz1. eapply kw_names_param_false; eauto. }
+    destruct (fill Const (f_params fn) args kws) as [[a2 k2]|p].
+    - destruct Hfill as [-> ->]. rewrite Hproc. cbn [run_cb]. rewrite Hz1, Hz2, Hn.
+      repeat split; auto.
+    - cbn. unfold ft. rewrite Hf. discriminate.
+  Qed.
+
+  Theorem follow_good : forall e, P e.
+  Proof.
+    induction e using expr_ind'; intros Hg.
+    - (* Name *) rewrite fx_Name. fin.
+    - (* Const *) rewrite fx_Const. fin.
+    - (* Attr *)
+      cbn [expr_grammar] in Hg. destruct (IHe Hg) as [Hv _]. split; [|exact Hv].
+      rewrite fx_Attr.
+      apply (step_child (Attr e a) e _ (good (Attr e a))); [cbn; auto | exact Hv | intros r Hr; exact Hr |].
+      intros t aux Ht Ha Hl E. cbv beta iota.
+      pose proof (attr_type_good e a t aux Hg Ht Ha) as H.
+      destruct (attr_type W a e t aux); cbn [bind]; [fin | apply good_refuse_here; exact H | contradiction].
+    - (* Call *)
+      cbn [expr_grammar] in Hg.
+      destruct (andb_prop _ _ Hg) as [Hg4 Hg3]. destruct (andb_prop _ _ Hg4) as [Hg5 Hg0].
+      destruct (andb_prop _ _ Hg5) as [Hg6 Hg1]. destruct (andb_prop _ _ Hg6) as [Hgf Hg2]. clear Hg4 Hg5 Hg6.
+      apply grammar_all in Hg2. apply grammar_all in Hg1.
+      pose proof (P_list _ H Hg2) as Ha. pose proof (P_list _ H0 Hg1) as Hk.
+      apply Nat.eqb_eq in Hg0.
+      split; [|exact I].
+      destruct (IHe Hgf) as [Hf Hsub].
+      set (E := Call e args kwn kwv).
+      assert (Hcases : (exists v a, e = Attr v a) \/ (exists v a s, e = Subscript (Attr v a) s) \/ plain_callee e).
+      { destruct e; try (right; right; exact I); try (left; eauto; fail).
+        match goal with |- context [plain_callee (Subscript ?x ?y)] => destruct x end;
+          try (right; right; exact I).
+        right; left; eauto. }
+      destruct Hcases as [(v & a & ->)|[(v & a & s & ->)|Hplain]].
+      + (* method call *)
+        cbn [subgood] in Hsub. unfold E. rewrite fx_Call_method.
+        assert (Hin : forall r, designed ft r (Attr v a) -> designed ft r E).
+        { intros r Hr. eapply designed_child; [|exact Hr]. cbn; auto. }
+        unfold good in Hsub.
+        destruct (fx v) as [[[[v' tv] aux] ev]|r|kk] eqn:Ev; cbn [bind]; try contradiction.
+        * destruct Hsub as (-> & -> & Ht & Hax & _).
+          pose proof (attr_type_good v a tv aux Hgf Ht Hax) as Hat.
+          destruct (attr_type W a v tv aux); cbn [bind]; try contradiction.
+          -- apply (step_list E args _ (good E)); [apply incl_app_l | exact Ha | intros r Hr; exact Hr |].
+             intros ts1 _ _. cbv beta iota.
+             apply (step_list E kwv _ (good E)); [apply incl_app_r | exact Hk | intros r Hr; exact Hr |].
+             intros ts2 _ _. cbv beta iota.
+             rewrite process_method_call_simple by exact Ht. cbn [bind].
+             rewrite !nested_args_exprs by reflexivity. fin.
+          -- cbn. apply Hin. apply within_here. exact Hat.
+        * cbn. apply Hin. eapply designed_child; [|exact Hsub]. cbn; auto.
+      + (* call of a subscripted attribute of an untyped object *)
+        cbn [subgood] in Hsub. destruct Hsub as [Hv Hs]. unfold E. rewrite fx_Call_param.
+        assert (Hin : forall r, designed ft r (Subscript (Attr v a) s) -> designed ft r E).
+        { intros r Hr. eapply designed_child; [|exact Hr]. cbn; auto. }
+        unfold good in Hv.
+        destruct (fx v) as [[[[v' tv] aux] ev]|r|kk] eqn:Ev; cbn [bind]; try contradiction.
+        * destruct Hv as (-> & -> & Ht & Hax & _).
+          destruct (untyped_is_any v Hg3 _ _ _ _ Ev) as [-> ->].
+          pose proof (untyped_visited_shape v Hg3 _ _ _ _ Ev) as Hsh.
+          assert (Hat : attr_type W a v TAny [] = Ok TAny).
+          { unfold attr_type. destruct v; try contradiction; reflexivity. }
+          rewrite Hat. cbn [bind].
+          unfold good in Hs.
+          destruct (fx s) as [[[[s' ts] auxs] evs]|r|kk] eqn:Es; cbn [bind]; try contradiction.
+          -- destruct Hs as (-> & -> & _).
+             assert (Hst : subscript_type W (Attr v a) TAny [] s = Ok TAny).
+             { unfold subscript_type. cbn. rewrite ?find_iterable_any. reflexivity. }
+             rewrite Hst. cbn [bind].
+             apply (step_list E args _ (good E)); [apply incl_app_l | exact Ha | intros r Hr; exact Hr |].
+             intros ts1 _ _. cbv beta iota.
+             apply (step_list E kwv _ (good E)); [apply incl_app_r | exact Hk | intros r Hr; exact Hr |].
+             intros ts2 _ _. cbv beta iota.
+             rewrite param_call_guarded_on. cbn. fin.
+          -- cbn. apply Hin. eapply designed_child; [|exact Hs]. cbn; auto.
+        * cbn. apply Hin. apply (designed_child r (Subscript (Attr v a) s) (Attr v a)); [cbn; auto|].
+          apply (designed_child r (Attr v a) v); [cbn; auto | exact Hv].
+      + (* any other callee *)
+        unfold E. rewrite fx_Call_plain by exact Hplain.
+        apply (step_child E e _ (good E)); [cbn; auto | exact Hf | intros r Hr; exact Hr |].
+        intros t aux _ _ _ _. cbv beta iota.
+        apply (step_list E args _ (good E)); [apply incl_app_l | exact Ha | intros r Hr; exact Hr |].
+        intros ts1 _ _. cbv beta iota.
+        apply (step_list E kwv _ (good E)); [apply incl_app_r | exact Hk | intros r Hr; exact Hr |].
+        intros ts2 _ _. cbv beta iota.
+        destruct e; try (fin; fail).
+        destruct (find_func (w_ft W) id) as [fn|] eqn:Ef; [|fin].
+        pose proof (process_function_call_plain fn args kwn kwv id Ef Hg3 Hg0) as Hp.
+        destruct (process_function_call W fn args kwn kwv) as [[[node t'] ev']|r|kk]; cbn [bind]; try contradiction.
+        * destruct Hp as (-> & -> & Ht'). fin.
+        * apply good_refuse_here. exact Hp.
+    - (* Lambda *) rewrite fx_Lambda. fin.
+    - (* UnaryOp *)
+      cbn [expr_grammar] in Hg. destruct (IHe Hg) as [Hv _]. split; [|exact I].
+      rewrite fx_UnaryOp.
+      apply (step_child (UnaryOp o e) e _ (good (UnaryOp o e))); [cbn; auto | exact Hv | intros r Hr; exact Hr |].
+      intros t aux Ht _ _ _. cbv beta iota. rewrite unary_uses_lookup_on. cbn. fin.
+    - (* BinOp *)
+      cbn [expr_grammar] in Hg. destruct (andb_prop _ _ Hg) as [Hga Hgb].
+      destruct (IHe1 Hga) as [H1 _]. destruct (IHe2 Hgb) as [H2 _]. split; [|exact I].
+      rewrite fx_BinOp. set (E := BinOp o e1 e2).
+      apply (step_child E e1 _ (good E)); [cbn; auto | exact H1 | intros r Hr; exact Hr |].
+      intros t1 aux1 Ht1 _ _ _. cbv beta iota.
+      apply (step_child E e2 _ (good E)); [cbn; auto | exact H2 | intros r Hr; exact Hr |].
+      intros t2 aux2 Ht2 _ _ _. cbv beta iota. fin.
+      unfold binop_type. destruct (is_any t1 || is_any t2); [reflexivity|].
+      destruct (ty_eqb t1 TFloat || ty_eqb t2 TFloat); [reflexivity|]. destruct o; reflexivity.
+    - (* BoolOp *)
+      cbn [expr_grammar] in Hg. apply grammar_all in Hg. pose proof (P_list _ H Hg) as Ha. split; [|exact I].
+      rewrite fx_BoolOp. set (E := BoolOp o es).
+      apply (step_list E es _ (good E)); [cbn; apply incl_refl | exact Ha | intros r Hr; exact Hr |].
+      intros ts _ _. cbv beta iota. fin.
+    - (* Compare *)
+      cbn [expr_grammar] in Hg. destruct (andb_prop _ _ Hg) as [Hga Hg0].
+      apply grammar_all in Hg0. pose proof (P_list _ H Hg0) as Ha.
+      destruct (IHe Hga) as [H1 _]. split; [|exact I].
+      rewrite fx_Compare. set (E := Compare e ops rs).
+      apply (step_child E e _ (good E)); [cbn; auto | exact H1 | intros r Hr; exact Hr |].
+      intros t1 aux1 _ _ _ _. cbv beta iota.
+      apply (step_list E rs _ (good E)); [cbn; apply incl_tl, incl_refl | exact Ha | intros r Hr; exact Hr |].
+      intros ts _ _. cbv beta iota. fin.
+    - (* IfExp *)
+      cbn [expr_grammar] in Hg. destruct (andb_prop _ _ Hg) as [Hgab Hgc]. destruct (andb_prop _ _ Hgab) as [Hga Hgb].
+      destruct (IHe1 Hga) as [H1 _]. destruct (IHe2 Hgb) as [H2 _]. destruct (IHe3 Hgc) as [H3 _]. split; [|exact I].
+      rewrite fx_IfExp. set (E := IfExp e1 e2 e3).
+      apply (step_child E e1 _ (good E)); [cbn; auto | exact H1 | intros r Hr; exact Hr |].
+      intros t1 aux1 _ _ _ _. cbv beta iota.
+      apply (step_child E e2 _ (good E)); [cbn; auto | exact H2 | intros r Hr; exact Hr |].
+      intros t2 aux2 Ht2 _ _ _. cbv beta iota.
+      apply (step_child E e3 _ (good E)); [cbn; auto | exact H3 | intros r Hr; exact Hr |].
+      intros t3 aux3 Ht3 _ _ _. cbv beta iota.
+      unfold ifexp_type. destruct (ty_eqb t2 t3); [fin|].
+      destruct (numeric_or_any t2 && numeric_or_any t3); [fin|].
+      apply good_refuse_here. exact I.
+    - (* Tuple *)
+      cbn [expr_grammar] in Hg. apply grammar_all in Hg. pose proof (P_list _ H Hg) as Ha. split; [|exact I].
+      rewrite fx_Tuple. set (E := Tuple es).
+      apply (step_list E es _ (good E)); [cbn; apply incl_refl | exact Ha | intros r Hr; exact Hr |].
+      intros ts Hts Hl. cbv beta iota. fin.
+    - (* List *)
+      cbn [expr_grammar] in Hg. apply grammar_all in Hg. pose proof (P_list _ H Hg) as Ha. split; [|exact I].
+      rewrite fx_List. set (E := List es).
+      apply (step_list E es _ (good E)); [cbn; apply incl_refl | exact Ha | intros r Hr; exact Hr |].
+      intros ts _ _. cbv beta iota. fin.
+    - (* Dict *)
+      cbn [expr_grammar] in Hg. destruct (andb_prop _ _ Hg) as [Hgkv Hg0]. destruct (andb_prop _ _ Hgkv) as [Hgk Hg1].
+      clear Hg. rename Hgk into Hg. apply grammar_all in Hg1.
+      pose proof (P_list _ H0 Hg1) as Hv. apply Nat.eqb_eq in Hg0.
+      split; [|exact I].
+      assert (Hkeys : Forall (fun x => good x (fx x)) ks).
+      { clear -Hg. induction ks as [|k r IH]; constructor; cbn in Hg; apply andb_true_iff in Hg; destruct Hg as [Hk Hr].
+        - destruct k; try discriminate. rewrite fx_Const. cbn. repeat split; auto. destruct c; reflexivity.
+        - apply IH; exact Hr. }
+      rewrite fx_Dict. set (E := Dict ks vs).
+      apply (step_list E ks _ (good E)); [cbn; apply incl_appl, incl_refl | exact Hkeys | intros r Hr; exact Hr |].
+      intros ts1 _ _. cbv beta iota.
+      apply (step_list E vs _ (good E)); [cbn; apply incl_appr, incl_refl | exact Hv | intros r Hr; exact Hr |].
+      intros ts2 Hts2 _. cbv beta iota.
+      assert (Hd : exists t, dict_type ks ts2 = Ok t /\ simple t).
+      { unfold dict_type.
+        assert (Hl : exists ls, key_lits ks = Some ls /\ exists ns, lit_names ls = Some ns).
+        { clear -Hg. induction ks as [|k r IH]; cbn.
+          - exists []. split; [reflexivity|]. exists []. reflexivity.
+          - cbn in Hg. apply andb_true_iff in Hg. destruct Hg as [Hk Hr].
+            destruct k; try discriminate. destruct c; try discriminate.
+            destruct (IH Hr) as (ls & -> & ns & Hns). cbn. eexists; split; [reflexivity|]. cbn. rewrite Hns. cbn. eauto. }
+        destruct Hl as (ls & -> & ns & ->).
+        destruct (forallb valid_field_name ns && no_dups ns).
+        - eexists; split; [reflexivity|]. apply simple_record. exact Hts2.
+        - eexists; split; reflexivity. }
+      destruct Hd as (t & -> & Ht). cbn [bind]. fin.
+    - (* Subscript *)
+      cbn [expr_grammar] in Hg. destruct (andb_prop _ _ Hg) as [Hga Hgb].
+      destruct (IHe1 Hga) as [H1 Hs1]. destruct (IHe2 Hgb) as [H2 _].
+      split; [| destruct e1; cbn; auto ].
+      rewrite fx_Subscript. set (E := Subscript e1 e2).
+      apply (step_child E e1 _ (good E)); [cbn; auto | exact H1 | intros r Hr; exact Hr |].
+      intros t1 aux1 Ht1 Ha1 Hl1 _. cbv beta iota.
+      apply (step_child E e2 _ (good E)); [cbn; auto | exact H2 | intros r Hr; exact Hr |].
+      intros t2 aux2 _ _ _ _. cbv beta iota.
+      pose proof (subscript_type_good e1 t1 aux1 e2 Ht1 Ha1) as Hst.
+      assert (Hl : match e1 with Tuple es => length aux1 = length es | _ => True end) by (destruct e1; auto).
+      specialize (Hst Hl).
+      destruct (subscript_type W e1 t1 aux1 e2); cbn [bind]; [fin | apply good_refuse_here; exact Hst | contradiction].
+    - (* ListComp *)
+      cbn [expr_grammar] in Hg. destruct (andb_prop _ _ Hg) as [Hga Hg0].
+      apply grammar_all in Hg0. pose proof (P_list _ H Hg0) as Ha.
+      destruct (IHe Hga) as [H1 _]. split; [|exact I].
+      rewrite fx_ListComp. set (E := ListComp e gs).
+      apply (step_child E e _ (good E)); [cbn; auto | exact H1 | intros r Hr; exact Hr |].
+      intros t1 aux1 _ _ _ _. cbv beta iota.
+      apply (step_list E gs _ (good E)); [cbn; apply incl_tl, incl_refl | exact Ha | intros r Hr; exact Hr |].
+      intros ts _ _. cbv beta iota. fin.
+    - (* GenExp *)
+      cbn [expr_grammar] in Hg. destruct (andb_prop _ _ Hg) as [Hga Hg0].
+      apply grammar_all in Hg0. pose proof (P_list _ H Hg0) as Ha.
+      destruct (IHe Hga) as [H1 _]. split; [|exact I].
+      rewrite fx_GenExp. set (E := GenExp e gs).
+      apply (step_child E e _ (good E)); [cbn; auto | exact H1 | intros r Hr; exact Hr |].
+      intros t1 aux1 _ _ _ _. cbv beta iota.
+      apply (step_list E gs _ (good E)); [cbn; apply incl_tl, incl_refl | exact Ha | intros r Hr; exact Hr |].
+      intros ts _ _. cbv beta iota. fin.
+    - (* CompFor *)
+      cbn [expr_grammar] in Hg. destruct (andb_prop _ _ Hg) as [Hgab Hg0]. destruct (andb_prop _ _ Hgab) as [Hga Hgb].
+      apply grammar_all in Hg0. pose proof (P_list _ H Hg0) as Ha.
+      destruct (IHe1 Hga) as [H1 _]. destruct (IHe2 Hgb) as [H2 _]. split; [|exact I].
+      rewrite fx_CompFor. set (E := CompFor e1 e2 ifs a).
+      apply (step_child E e1 _ (good E)); [cbn; auto | exact H1 | intros r Hr; exact Hr |].
+      intros t1 aux1 _ _ _ _. cbv beta iota.
+      apply (step_child E e2 _ (good E)); [cbn; auto | exact H2 | intros r Hr; exact Hr |].
+      intros t2 aux2 _ _ _ _. cbv beta iota.
+      apply (step_list E ifs _ (good E)); [cbn; apply incl_tl, incl_tl, incl_refl | exact Ha | intros r Hr; exact Hr |].
+      intros ts _ _. cbv beta iota. fin.
+    - (* Raw *) rewrite fx_Raw. fin.
+    - (* Other *)
+      cbn [expr_grammar] in Hg. apply grammar_all in Hg. pose proof (P_list _ H Hg) as Ha. split; [|exact I].
+      rewrite fx_Other. set (E := Other cls atoms cs).
+      apply (step_list E cs _ (good E)); [cbn; apply incl_refl | exact Ha | intros r Hr; exact Hr |].
+      intros ts _ _. cbv beta iota. fin.
+  Qed.
+End Untyped.
+
+(* ---------- the statements exported by Properties/C10.v ---------- *)
+
+Definition bool_shape (b : expr) : bool :=
+  match b with Compare _ _ _ | BoolOp _ _ => true | _ => false end.
+
+(* comparisons and and/or are typed bool, whatever the class model, environment and operands *)
+Lemma where_bool_shapes_x W G b e' t ev :
+  bool_shape b = true -> follow W G b = Ok (e', t, ev) -> t = TBool.
+Proof.
+  unfold follow. intros Hb H. apply bind_ok in H. destruct H as ([[[e1 t1] aux1] ev1] & H1 & H2).
+  inversion H2; subst. destruct b; try discriminate.
+  - rewrite fx_BoolOp in H1. apply bind_ok in H1. destruct H1 as ([[? ?] ?] & _ & H1). inversion H1; reflexivity.
+  - rewrite fx_Compare in H1. apply bind_ok in H1. destruct H1 as ([[[? ?] ?] ?] & _ & H1).
+    apply bind_ok in H1. destruct H1 as ([[? ?] ?] & _ & H1). inversion H1; reflexivity.
+Qed.
+
+Lemma untyped_passthrough_x W G e :
+  ft_plain (w_ft W) -> Forall (fun xt => simple (snd xt)) G -> expr_grammar W G e = true ->
+  match follow W G e with
+  | Ok (e', t, ev) => e' = e /\ ev = [] /\ simple t
+  | Refuse r => designed (w_ft W) r e
+  | Crash _ => False
+  end.
+Proof.
+  intros Hft HG Hg. destruct (follow_good W G Hft HG e Hg) as [H _]. unfold follow, good in *.
+  destruct (follow_x W G e) as [[[[e' t] aux] ev]|r|k]; cbn [bind]; auto.
+  destruct H as (-> & -> & Ht & _). auto.
+Qed.
+
+Definition stream_operator (op : opkind) : Prop := op = OpSelect \/ op = OpSelectMany \/ op = OpWhere.
+
+Definition designed_op (ft : functab) (op : opkind) (r : refusal) (p : string) (b : expr) : Prop :=
+  designed ft r b                                                         (* raised while following the body *)
+  \/ (r = RBadConst /\ check_ast (Lambda [p] b) = false)                    (* a constant that cannot be transported *)
+  \/ (r = RWhereNotBool /\ op = OpWhere /\ bool_shape b = false).           (* non-boolean Where filter *)
+
+Lemma untyped_stream_ops_x W op p b :
+  ft_plain (w_ft W) -> stream_operator op -> expr_grammar W [(p, TAny)] b = true ->
+  match stream_op W op [] TAny (Lambda [p] b) with
+  | Ok (lam, t, ev) => lam = Lambda [p] b /\ ev = [] /\ simple t
+  | Refuse r => designed_op (w_ft W) op r p b
+  | Crash _ => False
+  end.
+Proof.
+  intros Hft Hop Hg. cbn [stream_op].
+  assert (HG : Forall (fun xt : string * ty => simple (snd xt)) [(p, TAny)]) by (constructor; [reflexivity | constructor]).
+  pose proof (untyped_passthrough_x W [(p, TAny)] b Hft HG Hg) as H.
+  pose proof (where_bool_shapes_x W [(p, TAny)] b) as Hb.
+  destruct (follow W [(p, TAny)] b) as [[[b' t] ev]|r|k]; cbn [bind]; try contradiction.
+  - destruct H as (-> & -> & Ht). unfold finish_op.
+    destruct (check_ast (Lambda [p] b)) eqn:Ec; cbn [negb].
+    + destruct Hop as [-> | [-> | ->]].
+      * auto.
+      * repeat split; auto. rewrite unwrap_iterable_simple by exact Ht. reflexivity.
+      * destruct (ty_eqb t TBool) eqn:Et; [repeat split; auto; reflexivity|].
+        right; right. repeat split; auto.
+        destruct (bool_shape b) eqn:Es; [|reflexivity].
+        rewrite (Hb b t [] eq_refl eq_refl) in Et. discriminate.
+    + right; left. auto.
+  - left. exact H.
+Qed.
+
+(* the library's own registered functions (Gen/TablesTypes.v, regenerated from the source) are plain *)
+Lemma ft_default_plain : ft_plain ft_default.
+Proof. unfold ft_plain, ft_default. repeat constructor. Qed.
+
+Definition lib_world (ct : classtab) (cbs : cbtab) : world := {| w_ct := ct; w_ft := ft_default; w_cb := cbs |}.
+
+Lemma untyped_passthrough_default (ct : classtab) (cbs : cbtab) (p : string) (e : expr) :
+  expr_grammar (lib_world ct cbs) [(p, TAny)] e = true ->
+  match follow (lib_world ct cbs) [(p, TAny)] e with
+  | Ok (e', t, ev) => e' = e /\ ev = []
+  | Refuse r => designed ft_default r e
+  | Crash _ => False
+  end.
+Proof.
+  intros Hg.
+  assert (HG : Forall (fun xt : string * ty => simple (snd xt)) [(p, TAny)]) by (constructor; [reflexivity | constructor]).
+  pose proof (untyped_passthrough_x (lib_world ct cbs) [(p, TAny)] e ft_default_plain HG Hg) as H.
+  destruct (follow (lib_world ct cbs) [(p, TAny)] e) as [[[e' t] ev]|r|k]; auto. tauto.
+Qed.
+
+Lemma untyped_stream_ops_default (ct : classtab) (cbs : cbtab) (op : opkind) (p : string) (b : expr) :
+  stream_operator op -> expr_grammar (lib_world ct cbs) [(p, TAny)] b = true ->
+  match stream_op (lib_world ct cbs) op [] TAny (Lambda [p] b) with
+  | Ok (lam, t, ev) => lam = Lambda [p] b /\ ev = []
+  | Refuse r => designed_op ft_default op r p b
+  | Crash _ => False
+  end.
+Proof.
+  intros Hop Hg.
+  pose proof (untyped_stream_ops_x (lib_world ct cbs) op p b ft_default_plain Hop Hg) as H.
+  destruct (stream_op (lib_world ct cbs) op [] TAny (Lambda [p] b)) as [[[e' t] ev]|r|k]; auto. tauto.
+Qed.
+
+(* Where on a comparison / boolean combination: the gate cannot be what refuses *)
+Lemma untyped_where_bool (ct : classtab) (cbs : cbtab) (p : string) (b : expr) :
+  bool_shape b = true -> expr_grammar (lib_world ct cbs) [(p, TAny)] b = true ->
+  match stream_op (lib_world ct cbs) OpWhere [] TAny (Lambda [p] b) with
+  | Ok (lam, t, ev) => lam = Lambda [p] b /\ t = TAny /\ ev = []
+  | Refuse r => designed ft_default r b \/ (r = RBadConst /\ check_ast (Lambda [p] b) = false)
+  | Crash _ => False
+  end.
+Proof.
+  intros Hb Hg.
+  pose proof (untyped_stream_ops_x (lib_world ct cbs) OpWhere p b ft_default_plain (or_intror (or_intror eq_refl)) Hg) as H.
+  assert (Hitem : forall lam t ev, stream_op (lib_world ct cbs) OpWhere [] TAny (Lambda [p] b) = Ok (lam, t, ev) -> t = TAny).
+  { cbn [stream_op]. intros lam t ev E. apply bind_ok in E. destruct E as ([[b' t'] ev'] & _ & E).
+    unfold finish_op in E. destruct (negb (check_ast (Lambda [p] b'))); [discriminate|].
+    destruct (ty_eqb t' TBool); inversion E; reflexivity. }
+  destruct (stream_op (lib_world ct cbs) OpWhere [] TAny (Lambda [p] b)) as [[[e' t] ev]|r|k]; auto.
+  - destruct H as (-> & -> & _). repeat split; auto. eapply Hitem; reflexivity.
+  - destruct H as [H|[H|(_ & _ & H)]]; auto. congruence.
+Qed.
